@@ -10,6 +10,9 @@ R6 async siblings agree with the sync methods (cfg A)
 R2-copy-loop VirtioFsWriter::write copies min(remaining, slice) bytes per slice, advances source and total by that amount
 R6 (cont.) unrolled async vectored I/O: the k-th operation of a group runs at the group offset plus the lengths of the k earlier buffers; FuseDevWriter async writers append each byte-slice argument once in order and account every direct write/read; async slice preparers truncate like the sync allocator
 R7 FuseDevWriter::commit arms
+R2-copy-loop (cont.) FuseDevWriter::write / write_vectored effects (append when buffered, one accounted device write otherwise); the provided read_exact[_at]/write_all[_at] loops advance slice and offset by what was moved
+R8 retry: whole-buffer loops retry only on the Interrupted edge, run while count > 0, treat a zero-length transfer as an error, count down by what was moved
+R6 (cont.) VirtioFsWriter::async_write2/3 refuse on the combined length first; FuseDevWriter async writers return the total
 """
 import re
 from pyfbr import core, vf
